@@ -3,9 +3,10 @@ kPrefixBindingPower) against the precedence ladder of docs/grammar.md (C14 kerne
 import re, os
 from tools import cxx2c
 from tools.cxx2c import Lower, Unsupported, kids, qt, qt_sugar, strip, strip_parens, callee_name, norm_type
+from tools.cxx2c import REPO as _REPO
 
 NAME = 'PTAB'
-SRC = '/repo/src/bloch/compiler/parser/parser.cpp'
+SRC = _REPO + '/src/bloch/compiler/parser/parser.cpp'
 FUNCS = ['infixBinding']
 AST_FILTER = ['infixBinding', 'Binding', 'kPrefixBindingPower', 'TokenType']
 SHIM = 'ptab.h'
